@@ -23,18 +23,18 @@ import (
 
 type c14Enum int32
 type c14Name string
-type c14Leaf struct {
+type C14Leaf struct {
 	Id    int64
 	Label string
 }
-type c14Other struct {
+type C14Other struct {
 	Val   float64
 	Flags []bool
 }
 type c14Union struct {
 	schemabuilder.Union
-	*c14Leaf
-	*c14Other
+	*C14Leaf
+	*C14Other
 }
 type c14Node struct {
 	Name     string
@@ -48,10 +48,10 @@ type c14Node struct {
 	OptNil   *string
 	Kind     c14Enum
 	Nums     []int32
-	Leaves   []*c14Leaf
-	Inline   c14Leaf
-	Ptr      *c14Leaf
-	NilPtr   *c14Leaf
+	Leaves   []*C14Leaf
+	Inline   C14Leaf
+	Ptr      *C14Leaf
+	NilPtr   *C14Leaf
 	When     time.Time
 	Raw      []byte
 }
@@ -60,10 +60,10 @@ func c14Schema() *graphql.Schema {
 	s := schemabuilder.NewSchema()
 	s.Enum(c14Enum(0), map[string]interface{}{"ZERO": c14Enum(0), "ONE": c14Enum(1), "TWO": c14Enum(2)})
 	str := "opt"
-	leafA, leafB := &c14Leaf{Id: 1, Label: "a"}, &c14Leaf{Id: 2, Label: "b"}
+	leafA, leafB := &C14Leaf{Id: 1, Label: "a"}, &C14Leaf{Id: 2, Label: "b"}
 	node := func() *c14Node {
 		return &c14Node{Name: "n", Count: 7, Small: -3, Unsigned: 9, Ratio: 1.5, Flag: true, Tag: "t", Opt: &str, Kind: c14Enum(2),
-			Nums: []int32{1, 2, 3}, Leaves: []*c14Leaf{leafA, leafB}, Inline: c14Leaf{Id: 3, Label: "c"}, Ptr: leafA,
+			Nums: []int32{1, 2, 3}, Leaves: []*C14Leaf{leafA, leafB}, Inline: C14Leaf{Id: 3, Label: "c"}, Ptr: leafA,
 			When: time.Unix(1500000000, 0).UTC(), Raw: []byte("xy")}
 	}
 	q := s.Query()
@@ -82,28 +82,28 @@ func c14Schema() *graphql.Schema {
 	q.FieldFunc("withArgs", func(args struct {
 		X int64
 		S *string
-	}) *c14Leaf {
-		return &c14Leaf{Id: args.X, Label: "arg"}
+	}) *C14Leaf {
+		return &C14Leaf{Id: args.X, Label: "arg"}
 	})
-	q.FieldFunc("union", func() *c14Union { return &c14Union{c14Leaf: leafA} })
+	q.FieldFunc("union", func() *c14Union { return &c14Union{C14Leaf: leafA} })
 	q.FieldFunc("unionNil", func() *c14Union { return nil })
-	q.FieldFunc("unions", func() []*c14Union { return []*c14Union{{c14Leaf: leafB}, {c14Other: &c14Other{Val: 2.5, Flags: []bool{true}}}} })
+	q.FieldFunc("unions", func() []*c14Union { return []*c14Union{{C14Leaf: leafB}, {C14Other: &C14Other{Val: 2.5, Flags: []bool{true}}}} })
 	q.FieldFunc("noReturn", func() {})
 
 	obj := s.Object("c14Node", c14Node{})
 	obj.FieldFunc("computed", func(n *c14Node) string { return n.Name + "!" })
-	obj.FieldFunc("computedPtr", func(ctx context.Context, n c14Node) (*c14Leaf, error) { return n.Ptr, nil })
-	obj.FieldFunc("computedList", func(n *c14Node, args struct{ N int64 }) []c14Leaf {
-		out := []c14Leaf{}
+	obj.FieldFunc("computedPtr", func(ctx context.Context, n c14Node) (*C14Leaf, error) { return n.Ptr, nil })
+	obj.FieldFunc("computedList", func(n *c14Node, args struct{ N int64 }) []C14Leaf {
+		out := []C14Leaf{}
 		for i := int64(0); i < args.N; i++ {
-			out = append(out, c14Leaf{Id: i})
+			out = append(out, C14Leaf{Id: i})
 		}
 		return out
 	})
-	obj.FieldFunc("failing", func(n *c14Node) (*c14Leaf, error) { return nil, errors.New("resolver says no") })
-	leaf := s.Object("c14Leaf", c14Leaf{})
-	leaf.FieldFunc("twice", func(l *c14Leaf) int64 { return 2 * l.Id })
-	s.Object("c14Other", c14Other{})
+	obj.FieldFunc("failing", func(n *c14Node) (*C14Leaf, error) { return nil, errors.New("resolver says no") })
+	leaf := s.Object("C14Leaf", C14Leaf{})
+	leaf.FieldFunc("twice", func(l *C14Leaf) int64 { return 2 * l.Id })
+	s.Object("C14Other", C14Other{})
 	m := s.Mutation()
 	m.FieldFunc("noop", func() bool { return true })
 	built := s.MustBuild()
